@@ -953,6 +953,9 @@ def verify_derivation(obs, world, cname, dname, contract, pid, timeout=20000, it
             if not isinstance(R, Obj) or R.cls.name != contract.result_class(cname):
                 obs.append(Ob(f"{pid}/{base}/result-class#path{i}", kind, FAILED, "ast", detail=f"result is {getattr(getattr(R, 'cls', None), 'name', type(R).__name__)}"))
                 continue
+            if getattr(contract, "result_is_self", False) and (focus_loop in (None, 0)) and ("view" in want):
+                obs.append(Ob(f"{pid}/{base}/returns-the-graph-itself#path{i}", kind, DISCHARGED if R is g1 else FAILED, "ast",
+                              detail="" if R is g1 else "the in-place operation returned another object"))
             vR = GM.View(h1, R)
             spec = contract.spec(v0, sym, cname)
             if "view" in want:
